@@ -5,7 +5,8 @@ from mc import core, det, vnet, fe, xstate
 PROPERTY = 'C10'
 ENGINE = 'E2 explicit-state search (BFS to fixpoint + all histories to depth k, no dedup) over the real connection handler on the E3 virtual network, one connection at a time'
 LEVEL = 'model_checking'
-ALPHABET = ['config1', 'config2', 'upload1', 'upload2', 'search', 'reconnect-before-cleanup', 'reconnect-after-cleanup', 'foreign-sid', 'unknown-type']
+ALPHABET = ['config1', 'config2', 'upload1', 'upload2', 'search', 'reconnect-before-cleanup', 'reconnect-after-cleanup', 'foreign-sid', 'unknown-type',
+            'config-malformed', 'upload-malformed', 'search-malformed']
 DEPTH = {'quick': 4, 'thorough': 5}
 
 
@@ -13,7 +14,8 @@ def describe(tier):
     return {
         'rule': 'state = history of protocol events on ONE service id, replayed on a fresh virtual network + fresh ServicesManager + fresh sid; '
                 'alphabet = {config(c1), config(c2), upload(e1), upload(e2), search(t), reconnect before the 1 s cleanup, reconnect after it, a '
-                'config message carrying a foreign sid, a message of unknown type}; c1/c2 are valid PiBas configurations differing in salt, e1/e2 '
+                'config message carrying a foreign sid, a message of unknown type, a config message whose content is not a pickle, an index '
+                'upload without content, a token of the wrong length}; c1/c2 are valid PiBas configurations differing in salt, e1/e2 '
                 'indexes of two different databases under one key, t a token whose answer differs between them. Reference model = '
                 '(state in {0,1,2}, accepted cfg, accepted edb, connection open). (a) BFS to fixpoint over canon = model state + files and hashes '
                 'under ~/.sse/<sid> + the active Service object\'s state snapshot and loaded-object flags + registry keys + armed cleanup timers; '
@@ -21,7 +23,7 @@ def describe(tier):
                 'acknowledged iff the model accepts it (a refusal may be a refusal message or a server-side closure); a search is answered only in '
                 'state 2 and with Search(accepted edb, t); config.json / edb bytes never change once accepted; a refused request changes nothing. '
                 'non-trivial = history containing at least one accepted request.' % DEPTH[tier],
-        'bounds': 'alphabet 9; BFS fixpoint; all histories of length <= %d' % DEPTH[tier],
+        'bounds': 'alphabet 12; BFS fixpoint; all histories of length <= %d' % DEPTH[tier],
         'assumptions': ['one connection at a time (overlap is C12)', 'transport model: in-memory, per-connection FIFO; validated against loopback TCP by mc/loopback.py',
                         'timer rule: only timers armed with <= 2 s (the cleanup delay) are schedulable events'],
         'must_be_nonzero': ['accepted-config', 'accepted-upload', 'answered-search', 'refused', 'reconnect-before-cleanup', 'bfs-fixpoint', 'dfs-histories', 'tcp-loopback-replays'],
@@ -146,6 +148,18 @@ class ServerSystem:
             s.conn.send('bogus', b'x')
             accept = False
             reply_type = None
+        elif ev == 'config-malformed':          # a configuration message whose content is not a pickle
+            s.conn.send('config', b'this is not a pickle')
+            accept = False
+            reply_type = 'config'
+        elif ev == 'upload-malformed':          # an index upload without any content
+            s.conn.send('upload_edb', None)
+            accept = False
+            reply_type = 'upload_edb'
+        elif ev == 'search-malformed':          # a token of the wrong length
+            s.conn.send('token', b'xx', token_digest=b'')
+            accept = False
+            reply_type = 'result'
         fe.settle(s.w.loop, timers=False)
         msgs = [m for m in s.conn.new_messages() if m.get('type') != 'control']
         if not msgs and not s.conn.closed:
@@ -196,6 +210,11 @@ class ServerSystem:
                 probs.append(('invalid-request-acknowledged', '%s/state%d' % (ev, md['state']), 'refusal or closure', 'acknowledged' if result is None else result))
                 # follow the implementation so that later steps are judged consistently
             after = self._disk(s)
+            if md['state'] < 2:
+                # before an index has been accepted the edb file is not part of the observable state: an upload that fails while
+                # being stored may leave a (partial) file behind that the next accepted upload replaces
+                before = {k: v for k, v in before.items() if k != 'edb'}
+                after = {k: v for k, v in after.items() if k != 'edb'}
             if after != before and not acked:
                 probs.append(('refused-request-changed-files', '%s/state%d' % (ev, md['state']), sorted(before), sorted(after)))
         md['open'] = not closed
